@@ -76,8 +76,17 @@ def gen_c08(tier, rng):
             out.append(case("fmt", "str", api, hexs("{}{}"), tok(t, x)))
         # exception messages: constructor and raise, (value, tail)
         out.append(case("fmt", "exc", "ext-ctor", tok(t, x) + "," + tok("s", " tail")))
+    # a type that converts implicitly to std::string and prints decorated; nullptr
+    ext += [("C", "<path>"), ("C", "<>"), ("C", "<{}>"), ("n", "nullptr")]
     for t, x in ext:
         out.append(case("fmt", "exc", "ext-raise", tok(t, x) + "," + tok("s", "head ")))
+        # a message made of this one argument
+        out.append(case("fmt", "exc", "ext1-ctor", tok(t, x)))
+        out.append(case("fmt", "exc", "ext1-raise", tok(t, x)))
+    for t, x in ext[-4:]:
+        for api in ("ext-pct", "ext-cpct", "ext-args"):
+            out.append(case("fmt", "str", api, hexs("{}"), tok(t, x)))
+            out.append(case("fmt", "str", api, hexs("a{}b"), tok(t, x)))
     for n in (4, 5, 6):
         for _ in range(20):
             out.append(case("fmt", "exc", rng.choice(["ctor", "raise"]),
